@@ -77,7 +77,7 @@ fn main() {
     let flag = true;
     let ch = 'q';
     let unit = ();
-    /* BREAK HERE (line 87) */ sink(&arr); sink(&arr2); sink(&vec1); sink(&vecs); sink(&deque); sink(&tup); sink(&outer); sink(&sref); sink(&aref);
+    /* BREAK HERE (the harness finds this marker) */ sink(&arr); sink(&arr2); sink(&vec1); sink(&vecs); sink(&deque); sink(&tup); sink(&outer); sink(&sref); sink(&aref);
     sink(&boxed); sink(&rc); sink(&arc); sink(&cell); sink(&pint); sink(&pp); sink(&s); sink(&st); sink(&hm_i); sink(&hm_s); sink(&hm_t);
     sink(&bm_i); sink(&bm_s); sink(&bm_k); sink(&bm_t); sink(&bm_e); sink(&bm_o); sink(&bm_b); sink(&bm_c); sink(&bm_w); sink(&bm_u); sink(&bm_v);
     sink(&bm_set); sink(&set_a); sink(&hs_i); sink(&bs_i); sink(&bs_s); sink(&shape1); sink(&shape2); sink(&shape3); sink(&opt); sink(&none);
